@@ -36,7 +36,7 @@ CHECKS.update({
             "The same generated call sequence is executed under every policy (the reference policy twice, as a determinism guard); outcomes, full observable states and disk_used_bytes are compared after every call and after a final restart against the Always(Flush) run.",
             "Trusted: OnDelay exercised at 0, 1 us and 1 h; wall clock not controlled.", "9/C14"),
     "C17": ("exploration", "stateful property testing (proptest) with generated foreign directory entries + metamorphic renumbering",
-            "Generated sets of near-miss names, directories, symlinks and unix sockets (each holding a valid WAL image for a phantom queue) are placed in the directory before opens; after histories with roll-over and GC they must be untouched and never read, all names the library touches must be wal-<20 digits>, and an order-preserving renumbering with gaps must recover the same state and continue at max+1.",
+            "Generated sets of near-miss names, directories, symlinks and unix sockets (each holding a valid WAL image for a phantom queue) are placed in the directory before opens; after histories with roll-over and GC they must be untouched and never read, all names the library touches (hook events) and all names the kernel reports as created / deleted / renamed in the directory (inotify) must be wal-<20 digits>, and an order-preserving renumbering with gaps must recover the same state and continue at max+1.",
             "Trusted: hook events for create/open/unlink names; WAL-shaped foreign names kept out of the writer's reach.", "9/C17"),
     "C18": ("exploration", "metamorphic property testing (proptest): history vs. per-queue projection, no reference model",
             "For every queue of a generated multi-queue history the projected history is re-executed in a fresh directory and the queue's outcomes and observable content are compared at every projected call; additionally a call addressed to one queue must not change what any other queue returns. Crash variants: after a crash between calls or inside a call addressed to another queue, every other queue recovers exactly as after its own completed calls (flush-per-operation policies), or at least still exists (DoNothing).",
